@@ -8,6 +8,7 @@ import (
 func main() {
 	drv.Main("C19", func(o *drv.Out) {
 		c19.RunKeys(o)      // (a) store keys, segment codec
+		c19.RunIndexUse(o)  // (a) index keys as the real indexer writes and scans them (absent components, alias addresses)
 		c19.RunPoolIds(o)   // (a) pool ids = chain id + kind addend
 		c19.RunSignBytes(o) // (b) sign bytes of certificates / consensus messages
 		c19.RunDecoders(o)  // (c) decoders of untrusted bytes and the handlers behind them
